@@ -436,6 +436,15 @@ _ext("C19",
      "are invisible). flattened2d is differential only.",
      "projection-based extension (Collab projects onto Once) + generated statement skeleton and memory orders + poison-after-scope monitor + happens-before recomputation")
 
+_ext("C20",
+     "Session 3: the dispatcher pool of an arena (coroutine cache, post-resume actions, repeated and nested suspensions, critical state) never hands a dispatcher out "
+     "twice, runs each post-resume action exactly once on the new stack before the thread takes any task, and destroys dispatchers only when idle; every wait that "
+     "covers a suspended task is incomplete and an outermost wait is left only by the owner of its stack (Pool / Ring / Wait models configured by statement-order "
+     "facts regenerated from the source; every dispatcher carries the proved suspend-point core).",
+     "The pool model's thread-role error freedom and the agreement of models and implementation are checked on explored schedules (white-box sampler, no source hook), "
+     "not proved; ring to bounded-stack refinement not proved; the delegated task_arena::execute path is tied by a generated fact only.",
+     "composition of per-object proved cores + count-based ring invariant + differential of the real arena_co_cache + no-hook white-box tracing")
+
 def main():
     checks = []
     for pid in ALL:
